@@ -127,9 +127,15 @@ pub fn update_access_list(
     if config.mode.is_on() {
         match access_list.update(config) {
             Ok(()) => {
+                #[cfg(aquatic_verif)]
+                crate::verif::count("access_list.update.ok");
+
                 ::log::info!("Access list updated")
             }
             Err(err) => {
+                #[cfg(aquatic_verif)]
+                crate::verif::count("access_list.update.err");
+
                 ::log::error!("Updating access list failed: {:#}", err);
 
                 return Err(err);
